@@ -12,9 +12,10 @@ from .vals import is_int
 
 
 class ModPoly:
-    def __init__(self, q, assume=None, bound=None):
+    def __init__(self, q, assume=None, bound=None, rng=None):
         self.q = q
         self.bound = bound    # callable(value) -> upper bound of the value (interval analysis) or None
+        self.rng = rng        # callable(value) -> (lo, hi) or None
         self.memo = {}
         self.atoms = {}
         self.assume = assume or (lambda e: None)   # atom rewriting hook: e (tuple) -> polynomial or None
@@ -97,6 +98,61 @@ class ModPoly:
             r = self.mul(self.of(e[2]), self.of(e[3]))
         elif op == 'shl' and is_int(e[3]):
             r = self.scale(self.of(e[2]), 1 << e[3])
+        elif op == 'sel' and self.rng is not None:
+            c = e[1]
+            dec = None
+            if isinstance(c, Sym) and c.e[0] == 'icmp' and c.e[1] in ('slt', 'sle', 'sgt', 'sge'):
+                bits = c.e[2]
+                H = 1 << (bits - 1)
+
+                def sg(r_):
+                    if r_ is None or r_[0] < 0:
+                        return None
+                    if r_[1] < H:
+                        return r_
+                    if r_[0] >= H:
+                        return (r_[0] - 2 * H, r_[1] - 2 * H)
+                    return None
+                ra = sg(self.rng(c.e[3]) if isinstance(c.e[3], Sym) else ((c.e[3], c.e[3]) if is_int(c.e[3]) else None))
+                rb = sg(self.rng(c.e[4]) if isinstance(c.e[4], Sym) else ((c.e[4], c.e[4]) if is_int(c.e[4]) else None))
+                if ra and rb:
+                    p = c.e[1]
+                    if p == 'slt':
+                        dec = True if ra[1] < rb[0] else (False if ra[0] >= rb[1] else None)
+                    elif p == 'sle':
+                        dec = True if ra[1] <= rb[0] else (False if ra[0] > rb[1] else None)
+                    elif p == 'sgt':
+                        dec = True if ra[0] > rb[1] else (False if ra[1] <= rb[0] else None)
+                    else:
+                        dec = True if ra[0] >= rb[1] else (False if ra[1] < rb[0] else None)
+            if isinstance(c, Sym) and c.e[0] == 'icmp' and c.e[1] in ('eq', 'ne', 'ult', 'ule', 'ugt', 'uge'):
+                ra = self.rng(c.e[3]) if isinstance(c.e[3], Sym) else ((c.e[3], c.e[3]) if is_int(c.e[3]) else None)
+                rb = self.rng(c.e[4]) if isinstance(c.e[4], Sym) else ((c.e[4], c.e[4]) if is_int(c.e[4]) else None)
+                if ra and rb and ra[0] >= 0 and rb[0] >= 0:
+                    p = c.e[1]
+                    if p in ('eq', 'ne'):
+                        if ra[1] < rb[0] or rb[1] < ra[0]:
+                            dec = (p == 'ne')
+                        elif ra[0] == ra[1] == rb[0] == rb[1]:
+                            dec = (p == 'eq')
+                    elif p == 'ult':
+                        dec = True if ra[1] < rb[0] else (False if ra[0] >= rb[1] else None)
+                    elif p == 'ule':
+                        dec = True if ra[1] <= rb[0] else (False if ra[0] > rb[1] else None)
+                    elif p == 'ugt':
+                        dec = True if ra[0] > rb[1] else (False if ra[1] <= rb[0] else None)
+                    elif p == 'uge':
+                        dec = True if ra[0] >= rb[1] else (False if ra[1] < rb[0] else None)
+            if dec is not None:
+                r = self.of(e[2] if dec else e[3])
+        elif op == 'and' and e[1] == 64 and any(is_int(x) and x > 0 and (x & (x + 1)) != 0 and ((x >> ((x & -x).bit_length() - 1)) & ((x >> ((x & -x).bit_length() - 1)) + 1)) == 0 for x in e[2:4]):
+            # mask of contiguous ones starting at bit a:  and(t, 2^a*(2^b-1)) = 2^a * ((t >> a) - 2^b * (t >> (a+b)))
+            msk = e[2] if is_int(e[2]) else e[3]
+            t = e[3] if is_int(e[2]) else e[2]
+            a = (msk & -msk).bit_length() - 1
+            b = (msk >> a).bit_length()
+            hi = self.of(sym('lshr', 64, t, a + b)) if a + b < 64 else {}
+            r = self.scale(self.add(self.of(sym('lshr', 64, t, a)), self.scale(hi, 1 << b), -1), 1 << a)
         elif op == 'and' and e[1] == 64:
             for t, msk in ((e[2], e[3]), (e[3], e[2])):
                 if is_int(msk) and msk & (msk + 1) == 0 and msk > 0:
@@ -121,7 +177,11 @@ class ModPoly:
                     r = self.add(self.of(sym('lshr', 64, s_, j)), self.scale(self.of(sym('lshr', 64, s_, k)) if k < 64 else {}, 1 << (k - j)), -1)
             else:
                 hb = self.bound(t) if self.bound is not None else None
-                if hb is not None and hb < (1 << j):
+                rg = self.rng(t) if self.rng is not None else None
+                if rg is not None and rg[0] >= 0 and (rg[0] >> j) == (rg[1] >> j):
+                    c = (rg[0] >> j) % self.q
+                    r = {(): c} if c else {}     # the shifted value is a known constant on this range
+                elif hb is not None and hb < (1 << j):
                     r = {}     # the value is known to be below 2^j: its high part is zero
                 else:
                     r = {(self.atom(('lshr', t, j)),): 1}
